@@ -280,6 +280,45 @@ class CompilerProcess:
         if kind == "chdir":
             fs.h_chdir(op["path"])
             return {"i": i, "op": kind, "outcome": "ok"}
+        if kind == "tamper":
+            # another actor touched the output directory between two compilations
+            # (checkout with CRLF conversion, editor, interrupted copy, backup restore ...)
+            d = op["dir"].rstrip("/")
+            cands = sorted(p for p in fs.h_listing(d) if p.rsplit("/", 1)[0] == d and re.search(r"_bp\.(c|h|go|py)$", p))
+            if not cands:
+                return {"i": i, "op": kind, "outcome": "skipped"}
+            path = cands[op.get("pick", 0) % len(cands)]
+            data = fs.h_read(path)
+            how = op["how"]
+            if how == "crlf":
+                data = data.replace(b"\r\n", b"\n").replace(b"\n", b"\r\n")
+            elif how == "cr":
+                data = data.replace(b"\n", b"\r")
+            elif how == "truncate":
+                data = data[: len(data) * (op.get("frac", 50)) // 100]
+            elif how == "empty":
+                data = b""
+            elif how == "append":
+                data = data + b"\n// local edit\n"
+            elif how == "bom":
+                data = b"\xef\xbb\xbf" + data
+            elif how == "same_size":
+                data = (b"/* stale */ " * (len(data) // 12 + 1))[: len(data)]
+            elif how == "strip_final_newline":
+                data = data.rstrip(b"\n")
+            elif how == "trailing_ws":
+                data = data.replace(b"\n", b" \n", 3)
+            elif how in ("touch_future", "touch_past"):
+                pass
+            else:
+                raise HarnessError("unknown tamper %r" % (how,))
+            fs.h_write(path, data)
+            node = fs._walk(path)
+            if how == "touch_future":
+                node.mtime = fs.now() + 10 * 365 * 86400
+            elif how == "touch_past":
+                node.mtime = 1.0
+            return {"i": i, "op": kind, "outcome": "ok", "file": path.rsplit("/", 1)[-1], "how": how}
         if kind == "restart":
             self.boot()
             self.restarts += 1
